@@ -17,7 +17,7 @@ structure InvC (s : State) : Prop where
   c_created : ∀ b, s.cphase b = .created → s.cwork b = none ∧ s.workHolds b = false
   c_qcinc : ∀ t b, s.tpc t = .qcInc b → s.cowner b = t ∧ s.cphase b = .queued ∧ s.cwork b = none ∧ s.workHolds b = true
   c_queuing : ∀ t b, (s.tpc t).queuing = some b → s.cowner b = t ∧ s.cphase b = .queued ∧ s.cwork b ≠ none
-  c_waitof : ∀ t b, (s.tpc t).waitOf = some b → s.cowner b = t ∧ s.cphase b = .waiting
+  c_waitof : ∀ t b, (s.tpc t).waitOf = some b → s.cowner b = t ∧ s.cphase b = .waiting ∧ s.orphan b = false
   c_work_phase : ∀ b, s.cphase b = .waiting ∨ s.cphase b = .waited → s.cwork b ≠ none
   c_cnt0 : ∀ b, s.cwork b = none → s.ccnt b = 0 ∧ s.csub b = false
   c_cnt1 : ∀ b, s.cwork b ≠ none → s.csub b = false → s.ccnt b = 1
@@ -34,6 +34,8 @@ structure InvC (s : State) : Prop where
   c_freed : ∀ b, s.cfreed b = true → s.cphase b = .destroyed ∧ s.workHolds b = false
   c_holds : ∀ b w, s.cwork b = some w → s.fin w = false → s.workHolds b = true
   c_uaf : s.uaf = false
+  c_enq : ∀ b w, s.cwork b = some w → s.orphan b = false → w ∈ s.enqLog ∨ s.tpc (s.cowner b) = .enq w (.compl b)
+  c_fin_sub : ∀ b w, s.cwork b = some w → s.fin w = true → s.csub b = true
 
 theorem invC_init : InvC init := by
   constructor <;> simp [init, TPc.queuing, TPc.waitOf]
@@ -59,7 +61,7 @@ macro "c_tac" : tactic => `(tactic| (
   have b6 := hB.b_holding
   have b12 := hB.b_childHold
   clear hA hB
-  obtain ⟨h1, h2, h3, h4, h5, h6, h7, h8, h9, h10, h11, h12, h13, h14, h15, h16, h17, h18, h19, h20, h21, h22, h23, h24, h25⟩ := h
+  obtain ⟨h1, h2, h3, h4, h5, h6, h7, h8, h9, h10, h11, h12, h13, h14, h15, h16, h17, h18, h19, h20, h21, h22, h23, h24, h25, h26, h27⟩ := h
   simp only [step] at st
   (repeat' split at st)
   all_goals (first | (simp at st; done) | skip)
